@@ -169,6 +169,26 @@ def state_methods(run, ctx):
             wi = ws[0]
             pre = p.events[:wi]
             found = [ev for ev in pre if ev.kind == "cond" and ev.b and H.pat_match("(self.oldsave[{*ix}].slot == %s)" % SLOT, ev.a)]
+            # the same search written with iterator adaptors over the top nsave entries
+            TOP = ("self.oldsave.iter().rev().take(self.nsave)", "self.oldsave[(len(self.oldsave) - self.nsave)..].iter()",
+                   "self.oldsave[(len(self.oldsave) - self.nsave)..].iter().rev()", "self.oldsave[(len(self.oldsave) - self.nsave)..]")
+            ienv = {ev.a: ev.b for ev in pre if ev.kind == "let" and (ev.b or "").startswith("self.oldsave")}
+            found_iter = False
+            for ev in pre:
+                if ev.kind == "cond" and ev.b:
+                    m_ = H.pat_match("({x}.slot == %s)" % SLOT, ev.a) or H.pat_match("(%s == {x}.slot)" % SLOT, ev.a)
+                    if m_:
+                        its = [e2 for e2 in pre if e2.kind == "for-iter" and e2.a == m_.group("x")]
+                        if its and H.subst_lets(its[-1].b, ienv) in TOP:
+                            found_iter = True
+                    a_ = H.subst_lets(ev.a or "", ienv)
+                    for t_ in TOP:
+                        if H.pat_match("%s.any(|{x}| ({x}.slot == %s))" % (t_, SLOT), a_) or H.pat_match("%s.any(|{x}| (%s == {x}.slot))" % (t_, SLOT), a_):
+                            found_iter = True
+            if found_iter and not found:
+                if [i for i, ev in enumerate(pre) if ev.kind == "call" and H.pat_match("self.oldsave.push({*x})", ev.a)] or [ev for ev in pre if ev.kind == "assign" and ev.a == "self.nsave"]:
+                    run.violation(fam, "save", "double-log", H.where(fn), "State::save logs the old value although the slot is already in the current delta")
+                continue
             logged = [i for i, ev in enumerate(pre) if ev.kind == "call" and H.pat_match("self.oldsave.push(Save{slot:%s,value:self.saves[%s]})" % (SLOT, SLOT), ev.a)]
             inc = [i for i, ev in enumerate(pre) if ev.kind == "assign" and ev.a == "self.nsave" and ev.b == "+=" and ev.c == "1"]
             if found:
